@@ -287,7 +287,9 @@ def gen_cases(run):
         dict(split_method='random', task='reg2', n=70, tuning=True, n_tree_iters=2, d=3),
         dict(split_method='random', task='reg2', n=90, tuning=True, n_tree_iters=1, kernel='l2_high_dim'),
         dict(split_method='random_global_agop', task='reg2', n=80, tuning=True, n_tree_iters=2),
-        dict(split_method='pca', task='reg1', n=36, max_leaf_size=40, number_of_splits=2, tuning=False),   # forced splits
+        # forced splits; one split only: the earlier fits of a history have 16-18 rows and every leaf must keep >= 5 samples
+        # (a smaller leaf moves int(0.2*m) = 0 samples into an empty validation set, which RFM.fit rejects - outside the property)
+        dict(split_method='pca', task='reg1', n=36, max_leaf_size=40, number_of_splits=1, tuning=False),
         dict(split_method='random', task='reg2', n=36, max_leaf_size=40, number_of_splits=1, tuning=True, n_tree_iters=1),
     ]
     for rep in range(reps):
